@@ -31,3 +31,12 @@ Inductive cstmt :=
 | SIfEq (a b : pvar) (s : cstmt)                         (* if (a == b) s *)
 | SDestroy (e : pexpr)                                   (* e->Destroy(params) *)
 | SSetParentNull (e : pexpr).                            (* e->SetParent(nullptr) *)
+
+(* growth round 4: the Relocator::CreateNode(isLeaf, count) calls of pvSplitNode, recorded like the AddSegment calls:
+   cell 0 = number of calls, call k in cells 2k+1 (isLeaf as 0/1) and 2k+2 (count) *)
+Definition ev_create (s : Z -> Z) (leaf : bool) (count : Z) : Z -> Z :=
+  let k := s 0 in upd (upd (upd s 0 (k + 1)) (2 * k + 1) (if leaf then 1 else 0)) (2 * k + 2) count.
+Definition creates_list (s : Z -> Z) : list (Z * Z) := map (fun k => (s (2 * Z.of_nat k + 1), s (2 * Z.of_nat k + 2))) (seq 0 (Z.to_nat (s 0))).
+
+(* growth round 4: the stop rule of pvRebalance's climbing loop as read off the AST *)
+Inductive bexp := BReb (k : nat) (* pvRebalance(parentNode, index + k, savedNode) *) | BFast | BNot (e : bexp) | BAnd (a b : bexp).
